@@ -496,15 +496,23 @@ class _KwFormal:
     return None
 
   # -- expressions -------------------------------------------------------------
+  def is_annotations(self, e):
+    if dotted(e) == "self.annotations":
+      return True
+    if isinstance(e, ast.Name):
+      v = self.local_value(e.id)
+      return v is not None and dotted(v) == "self.annotations"
+    return False
+
   def is_lookup(self, e):
     """self.annotations.get(<name>) / self.annotations[<name>]"""
     if isinstance(e, ast.Call) and isinstance(e.func, ast.Attribute) and \
-        e.func.attr == "get" and dotted(e.func.value) == "self.annotations" and \
+        e.func.attr == "get" and self.is_annotations(e.func.value) and \
         1 <= len(e.args) <= 2 and isinstance(e.args[0], ast.Name) and \
         e.args[0].id == self.name_var:
       return len(e.args) == 1 or (isinstance(e.args[1], ast.Constant)
                                   and e.args[1].value is None)
-    return (isinstance(e, ast.Subscript) and dotted(e.value) == "self.annotations"
+    return (isinstance(e, ast.Subscript) and self.is_annotations(e.value)
             and isinstance(e.slice, ast.Name) and e.slice.id == self.name_var)
 
   def truth(self, test, kind, env):
@@ -571,6 +579,13 @@ class _KwFormal:
       new = "LN" if prev == "LN" else "N"
     elif isinstance(value, ast.Name) and value.id in env["slots"]:
       new = env["slots"][value.id]
+    elif self.name_var in flow.names_in(value) and not (
+        isinstance(value, ast.Subscript) and
+        dotted(value.value) == f"{self.args_name}.namedargs"):
+      # depends on the keyword's name but is not the annotation lookup
+      raise AnalysisError(
+          f"iter_args: `{src(value)[:60]}` computes something from the keyword "
+          "name that is not self.annotations.get(name): not understood")
     elif prev == "LN":
       new = "F"
     elif prev == "N":
@@ -793,6 +808,14 @@ VARIANTS = [
     {"name": "twin-positive-guard-over-all-keyword-bindable", "rule": "R2.7", "file": FUNCTION, "expect": "silent",
      "old": "      if name in self.param_names[: self.posonly_count]:\n        formal = None\n      else:\n        formal = self.annotations.get(name)",
      "new": "      if name in self.param_names[self.posonly_count :] + self.kwonly_params:\n        formal = self.annotations.get(name)\n      else:\n        formal = None"},
+    {"name": "twin-annotations-alias", "rule": "R2.7", "expect": "silent",
+     "edits": [(FUNCTION, "    for name in sorted(args.namedargs):\n      namedarg = args.namedargs[name]",
+                "    annots = self.annotations\n    for name in sorted(args.namedargs):\n      namedarg = args.namedargs[name]"),
+               (FUNCTION, "      else:\n        formal = self.annotations.get(name)\n      if formal is None and self.kwargs_name:",
+                "      else:\n        formal = annots.get(name, None)\n      if formal is None and self.kwargs_name:")]},
+    {"name": "formal-from-unknown-helper", "rule": "R2.7", "file": FUNCTION, "expect": "error",
+     "old": "      else:\n        formal = self.annotations.get(name)\n      if formal is None and self.kwargs_name:",
+     "new": "      else:\n        formal = self._formal_of(name)\n      if formal is None and self.kwargs_name:"},
     {"name": "twin-items-loop", "rule": "R2.7", "file": FUNCTION, "expect": "silent",
      "old": "    for name in sorted(args.namedargs):\n      namedarg = args.namedargs[name]",
      "new": "    for name, namedarg in sorted(args.namedargs.items()):"},
